@@ -65,9 +65,15 @@ def check(ctx: Ctx) -> None:
         "round advances it and compares `timing <= clock`; SAME every track is split by that one length; PLACEHOLDER an exhausted "
         "track continues with a fresh empty sequence and an empty piece is supplied when split returns nothing; SHORTEN the "
         "optional re-quantisation runs with do_not_extend=True on the piece only; DEFAULT 4/4 before any signature; "
-        "PURE the inputs are only read (fresh working list; only non-mutating methods are called on input sequences). "
+        "PURE the inputs are only read (fresh working list; only non-mutating methods are called on input sequences); "
+        "SPLIT the boundary handling of RelativeSequence.split that the bars inherit: channel-and-pitch keyed open notes (KEY2), a cut "
+        "wait conserves time (CUT), notes cut at a bar line are closed and re-struck with the open note's channel, pitch and velocity "
+        "(RESTRIKE) -- the same rules as C08. "
         "Not decided: bar durations as numbers, coverage bound, sound conservation.")
     ctx.assumptions += ["RelativeSequence.split is pure and returns fresh pieces (C08, C16)", "signature changes lie on bar boundaries (hypothesis of the property)"]
+    # bar splitting is built on RelativeSequence.split: its boundary handling decides whether the bars reproduce the music
+    from .c08 import split_rules
+    split_rules(ctx, {"KEY", "CUT", "RESTRIKE"})
     params = fi.params
     inp = params[0]
     loop = next((n for n in fi.node.body if isinstance(n, ast.While)), None)
